@@ -17,7 +17,8 @@
         K - K A^T (A K A^T + S)^-1 A K,  pm + K A^T (A K A^T + S)^-1 (y - A pm)
      5  the returned covariance is symmetric (2 t_c) and 0 <= diag <= diag K + t_c
      6  every entry of the reported gradient = lin_grad_mean / lin_grad_cov with
-        alpha = J^-1 (y - A pm)                                 (tol t_g)
+        alpha = J^-1 (y - A pm)        (tol t_gm for the mean-function part, t_g for the
+        kernel part: with data in small units the former is of order 1/unit, the latter O(1))
      7  the value returned next to the gradient = marginal_likelihood(theta) (t_l)
 
    The evidence VALUE needs a logarithm and is checked by a coq-interval goal
@@ -34,7 +35,7 @@ Record lin_case := LinCase {
   l_dK : list qmat; l_dmu : list qvec;      (* gradient inputs, in hyper-parameter order *)
   o_pmean : qvec; o_pcov : qmat; o_mean_only : qvec;
   o_lml : Q; o_lml_g : Q; o_grad_mean : qvec; o_grad_cov : qvec;
-  t_c : Q; t_m : Q; t_g : Q; t_l : Q
+  t_c : Q; t_m : Q; t_g : Q; t_gm : Q; t_l : Q
 }.
 
 Definition lin_resid (c : lin_case) : qmat :=
@@ -83,7 +84,7 @@ Definition check_lin_obligations (c : lin_case) : list bool :=
     (* 5 *) close_mx n n (2 * t_c c) obs_c (qtr n n obs_c)
           && forallb (fun dk => Qle_bool (- t_c c) (fst dk) && Qle_bool (fst dk) (snd dk + t_c c))
                      (combine (map (hd 0) (qdiagof obs_c)) (map (hd 0) (qdiagof K)));
-    (* 6 *) close_mx (length (l_dmu c)) 1 (t_g c) (col_of gm) (col_of (o_grad_mean c))
+    (* 6 *) close_mx (length (l_dmu c)) 1 (t_gm c) (col_of gm) (col_of (o_grad_mean c))
           && close_mx (length (l_dK c)) 1 (t_g c) (col_of gc) (col_of (o_grad_cov c));
     (* 7 *) Qle_bool (Qabs (o_lml c - o_lml_g c)) (t_l c) ].
 
